@@ -4,6 +4,7 @@ package c16
 
 import (
 	"fmt"
+	"io"
 	"net"
 	"os"
 	"strings"
@@ -18,6 +19,7 @@ import (
 	"github.com/bokysan/socketace/v2/internal/server"
 	"github.com/bokysan/socketace/v2/internal/util/addr"
 	"github.com/bokysan/socketace/v2/internal/util/cert"
+	"github.com/bokysan/socketace/v2/internal/version"
 	"github.com/bokysan/socketace/v2/internal/zzverif/vlib"
 	"pgregory.net/rapid"
 )
@@ -30,7 +32,25 @@ const (
 	fSilent   = "silent"
 	fError    = "error-status"
 	fInsecure = "works-but-insecure"
+	// scripted peers that answer the first part of the session negotiation and then never speak again
+	fSilentAfterAnnounce = "silent-after-first-response"
+	fSilentInStartTLS    = "silent-inside-starttls"
 )
+
+// readRequestHeader reads up to the blank line that ends a request header.
+func readRequestHeader(c net.Conn) bool {
+	var last4 [4]byte
+	b := make([]byte, 1)
+	for {
+		if _, err := c.Read(b); err != nil {
+			return false
+		}
+		last4 = [4]byte{last4[1], last4[2], last4[3], b[0]}
+		if string(last4[:]) == "\r\n\r\n" {
+			return true
+		}
+	}
+}
 
 type upSpec struct {
 	Kind string `json:"kind"` // tcp, http, udp
@@ -155,6 +175,41 @@ func build(spec upSpec, idx int, mustSecure bool) (*endpoint, error) {
 			e.relay.Blackhole = true
 			e.up = mkUpstream(spec.Kind, e.relay.Port)
 		}
+	case fSilentAfterAnnounce, fSilentInStartTLS:
+		e.port = vlib.Port()
+		ln, err := net.Listen("tcp", vlib.HostPort(e.port))
+		if err != nil {
+			return nil, err
+		}
+		e.ln = ln
+		go func() {
+			for {
+				c, err := ln.Accept()
+				if err != nil {
+					return
+				}
+				go func(c net.Conn) {
+					defer c.Close()
+					if !readRequestHeader(c) {
+						return
+					}
+					resp := "HTTP/1.1 200 OK\r\nServer: scripted\r\nProtocol-Version: " + version.ProtocolVersion + "\r\n"
+					if spec.Fate == fSilentInStartTLS {
+						resp += "Capabilities: StartTLS\r\n"
+					}
+					c.Write([]byte(resp + "\r\n"))
+					if spec.Fate == fSilentInStartTLS {
+						if !readRequestHeader(c) {
+							return
+						}
+						c.Write([]byte("HTTP/1.1 101 Switching Protocols\r\nServer: scripted\r\nConnection: upgrade\r\nUpgrade: socketace/" + version.ProtocolVersion + "\r\n\r\n"))
+					}
+					// ... and never anything again; the connection stays open
+					io.Copy(io.Discard, c)
+				}(c)
+			}
+		}()
+		e.up = mkUpstream(spec.Kind, e.port)
 	case fError:
 		// a listener that answers every connection with an error status and closes
 		e.port = vlib.Port()
@@ -478,6 +533,10 @@ func TestSilentUpstreams(t *testing.T) {
 	for _, kind := range []string{"tcp", "http", "udp", "tcp+tls"} {
 		cases = append(cases, caseDesc{Ups: []upSpec{{kind, fSilent}, {"tcp", fWorks}}, Forward: "none", K: 1, Loss: "none"})
 		cases = append(cases, caseDesc{Ups: []upSpec{{"tcp", fRefused}, {kind, fSilent}, {"http", fWorks}}, Forward: "unreachable", K: 2, Loss: "none"})
+	}
+	for _, fate := range []string{fSilentAfterAnnounce, fSilentInStartTLS} {
+		cases = append(cases, caseDesc{Ups: []upSpec{{"tcp", fate}, {"tcp", fWorks}}, Forward: "none", K: 1, Loss: "none"})
+		cases = append(cases, caseDesc{Ups: []upSpec{{"tcp", fRefused}, {"tcp", fate}, {"http", fWorks}}, Forward: "unreachable", K: 2, Loss: "none"})
 	}
 	problems := make([]string, len(cases))
 	inconcl := make([]bool, len(cases))
